@@ -154,6 +154,36 @@ def zigzag(ctx, rule):
     ctx.ob(rule, fi, ok and len(hit) == 2 * len(samples) - 1, "ZigZag._parse decodes even x as x/2 and odd x as -(x+1)/2, at every magnitude%s" % why, key="zigzag decode")
 
 
+def varint_parse_form(ctx, rule):
+    """LEB128 decoding: bytes are read one at a time; the low 7 bits of each are collected in the order read; reading stops at the first
+    byte whose high bit is clear; the groups are folded most-significant-last: num = (num << 7) | group over the groups in reverse, from 0."""
+    M = ctx.model
+    fi = M.method("VarInt", "_parse")
+    paths = [p for p in paths_of(ctx, fi, "VarInt") if p.returns]
+    ok = bool(paths)
+    folded = 0
+    for p in paths:
+        rd = [e for e in p.events if e.kind == "READ"]
+        app = [e for e in p.events if e.kind == "MUT" and e["method"] == "append"]
+        ok = ok and bool(rd) and all(e["length"] == N.const(1) for e in rd) and len(app) == len(rd)
+        for r_, a_ in zip(rd, app):
+            byte = ("call", ("free", "byte2int"), (r_["res"],), ())
+            ok = ok and a_["args"] in ((("bin", "&", N.const(127), byte),), (("bin", "&", byte, N.const(127)),))
+            stop = [c for c in p.guards() if c[0] == "cmp" and c[1] == "==" and c[3] == N.const(0) and c[2] in (("bin", "&", N.const(128), byte), ("bin", "&", byte, N.const(128)))]
+            ok = ok and bool(stop)
+        rv = p.retval
+        if rv == N.const(0):
+            continue
+        folded += 1
+        ok = ok and rv[0] == "bin" and rv[1] == "|"
+        if ok:
+            sh = [x for x in rv[2:] if x[0] == "bin" and x[1] == "<<"]
+            el = [x for x in rv[2:] if x[0] == "elem"]
+            ok = len(sh) == 1 and len(el) == 1 and sh[0][3] == N.const(7) and sh[0][2][0] == "lv" and sh[0][2][3] == N.const(0) \
+                and el[0][1][0] == "call" and el[0][1][1] == ("free", "reversed") and bool(app) and el[0][1][2] == (app[0]["base"],)
+    ctx.ob(rule, fi, ok and folded >= 1, "VarInt._parse collects byte & 0x7f while the high bit is set and folds the groups as num = (num << 7) | group from the last group down, starting at 0", key="varint decode form")
+
+
 def conj(p):
     out = []
     def flat(c):
@@ -255,6 +285,14 @@ def run(ctx, rule="C10.R5"):
         elif good and N.mk_cmp(">=", number, N.const(0)) in conj(p):
             ok = ok and lvn[0][3] == number
     ctx.ob(rule, fi, ok, "integer2bits fills a zeroed width-long buffer from the last position backwards with number & 1, number >>= 1 (least significant bit last = most significant first)", key="integer2bits loop")
+    # the fill loop reaches position 0: its index test admits i == 0 (i >= 0 / i > -1), so the most significant bit of a full-width number is written
+    lps = uniq_events(paths, "LOOP")
+    w1 = N.mk_add(width, N.const(1), -1)
+    def admits_zero(c):
+        cs = c[2] if c[0] == "bool" and c[1] == "and" else (c,)
+        return any(x[0] == "cmp" and x[2] == w1 and ((x[1] == ">=" and x[3] == N.const(0)) or (x[1] == ">" and x[3] == N.const(-1))) for x in cs)
+    idx_tests = [c for lp in lps for c in [lp["iter"]] if any(x == w1 for x in N.walk(c))]
+    ctx.ob(rule, fi, bool(lps) and (not idx_tests or all(admits_zero(c) for c in idx_tests)), "the fill loop of integer2bits runs down to position 0 inclusive", key="integer2bits loop bound")
     if neg_ok is not None:
         ctx.ob(rule, fi, neg_ok, "negative numbers are encoded as number + 2^width (two's complement)", key="integer2bits negative")
     else:
